@@ -1010,8 +1010,9 @@ def gen_py_project(seed, rename=None):
             elif form == "wildcard":
                 path = rng.choice(["ma.py", "mb.py", "pkg/inner.py"])
                 names = [n for n in public[path] if not n.startswith("_")]
-                if not names or any(n in avail_bound for n in names):
+                if not names or any(n in avail_bound for n in names) or (not allow_twice and any((path, n) in targets_seen for n in names)):
                     continue
+                targets_seen.update((path, n) for n in names)
                 for n in names:
                     avail_bound[n] = 1
                 out.append({"form": "wildcard", "module": modname(path), "binds": names, "kind": "from-import-wildcard",
@@ -1094,18 +1095,23 @@ def gen_py_project(seed, rename=None):
     m["calls"][ctag] = {"file": "main.py", "name": g.rename.get(ctag, "f1"), "line": ln, "scope": msid}
     g.emit(0, f'K().m("{ids.call()}")')
     # call every imported library function that is bound under some name at module level (call-site binding across files)
+    def is_function(path, name, depth=0):
+        """per the PLAN (original names, independent of any renaming): does `name` at module level of `path` mean a function?"""
+        if name in plans[path]["funs"]:
+            return True
+        for i2 in plans[path].get("imports", []):
+            t2 = (i2.get("target") or {}).get(name)
+            if t2 and t2[1] is not None and depth < 4:
+                return is_function(t2[0], t2[1], depth + 1)
+        return False
+
     for imp in top_imports:
         for b in imp["binds"]:
             tgt = imp["target"].get(b)
-            if tgt and tgt[1] is not None:
-                info = [c for c, d in m["consts"].items() if d["file"] == tgt[0] and d["kind"] == "function"]
-                # (resolved at run time; here only names that are functions in the exporting file or re-exported functions)
-                is_fun = any(m["consts"][c]["name"] == g.rename.get("d" + c, tgt[1]) or m["consts"][c]["name"] == tgt[1] for c in info) or \
-                    any(tgt[1] in (i2.get("binds") or []) and "re-export" in i2["kind"] and tgt[1] in LIB_FUNS for i2 in plans[tgt[0]].get("imports", []))
-                if is_fun:
-                    ctag = ids.call()
-                    ln = g.emit(0, f'{g.nm(ctag, b)}("{ctag}")')
-                    m["calls"][ctag] = {"file": "main.py", "name": g.rename.get(ctag, b), "line": ln, "scope": msid}
+            if tgt and tgt[1] is not None and is_function(tgt[0], tgt[1]):
+                ctag = ids.call()
+                ln = g.emit(0, f'{g.nm(ctag, b)}("{ctag}")')
+                m["calls"][ctag] = {"file": "main.py", "name": g.rename.get(ctag, b), "line": ln, "scope": msid}
     g.end()
     return g.files, json.loads(json.dumps(m))
 
@@ -1160,3 +1166,297 @@ def run_py_project(files, workdir):
         return json.loads(p.stdout.strip().splitlines()[-1])
     except Exception as e:
         return {"status": "driver:" + repr(e)[:100], "outputs": []}
+
+
+# =====================================================================================================================
+# Hand-written shadowing templates for languages judged by the alpha-renaming relation only (Java, Go, C, PHP, TypeScript)
+# A placeholder {k} is ONE variable (its declaration and exactly the occurrences bound to it); several placeholders share a
+# base name on purpose (shadowing). A twin renames one placeholder. On a line, two different placeholders never share a name.
+# Java, C and TypeScript twins are validated by running both variants (javac+java / gcc / node after erasing the types).
+# =====================================================================================================================
+TEMPLATES = {
+    "java": [
+        {"name": "shadow", "file": "Main.java", "vars": {"a": "x", "b": "x", "c": "i", "d": "y", "e": "y", "h": "x"},
+         "renames": ["a", "b", "c", "d", "e", "h"], "text": """public class Main {
+    static int {a} = 10;
+    static int f(int {b}) {
+        int s = {b} + 1;
+        for (int {c} = 0; {c} < 2; {c}++) {
+            s = s + {c};
+        }
+        return s;
+    }
+    static int g() {
+        int t = {a} + 2;
+        {
+            int {d} = 5;
+            t = t + {d};
+        }
+        {
+            int {e} = 7;
+            t = t + {e};
+        }
+        return t;
+    }
+    static int k(int n) {
+        int {h} = n * 3;
+        return {h} + 1;
+    }
+    public static void main(String[] args) {
+        System.out.println(f(3));
+        System.out.println(g());
+        System.out.println(k(2));
+    }
+}
+"""},
+        {"name": "nested", "file": "Main.java", "vars": {"a": "v", "b": "v", "c": "w", "d": "w"},
+         "renames": ["a", "b", "c", "d"], "text": """public class Main {
+    static int {a} = 1;
+    static int {c} = 2;
+    static class Inner {
+        int run(int {b}) {
+            int r = {b} * 2;
+            return r + {c};
+        }
+    }
+    static int outer(int {d}) {
+        if ({d} > 0) {
+            return {d} + {a};
+        }
+        return {a};
+    }
+    public static void main(String[] args) {
+        System.out.println(new Inner().run(4));
+        System.out.println(outer(5));
+    }
+}
+"""},
+    ],
+    "c": [
+        {"name": "shadow", "file": "main.c", "vars": {"a": "x", "b": "x", "c": "x", "d": "i", "e": "y"},
+         "renames": ["a", "b", "c", "d", "e"], "text": """#include <stdio.h>
+int {a} = 10;
+int f(int {b}) {
+    int s = {b} + 1;
+    {
+        int {c} = 4;
+        s = s + {c};
+    }
+    return s + {b};
+}
+int g(void) {
+    int t = {a} + 2;
+    for (int {d} = 0; {d} < 2; {d}++) {
+        t = t + {d};
+    }
+    return t;
+}
+int h(int n) {
+    int {e} = n * 3;
+    if (n > 0) {
+        {e} = {e} + 1;
+    }
+    return {e};
+}
+int main(void) {
+    printf("%d\\n", f(3));
+    printf("%d\\n", g());
+    printf("%d\\n", h(2));
+    return 0;
+}
+"""},
+        {"name": "static", "file": "main.c", "vars": {"a": "cnt", "b": "cnt", "c": "v"},
+         "renames": ["a", "b", "c"], "text": """#include <stdio.h>
+static int {a} = 100;
+int bump(void) {
+    {a} = {a} + 1;
+    return {a};
+}
+int local(int {c}) {
+    int {b} = {c} * 2;
+    while ({b} > 10) {
+        {b} = {b} - 3;
+    }
+    return {b};
+}
+int main(void) {
+    printf("%d\\n", bump());
+    printf("%d\\n", local(9));
+    return 0;
+}
+"""},
+    ],
+    "go": [
+        {"name": "shadow", "file": "main.go", "vars": {"a": "x", "b": "x", "c": "x", "d": "i", "e": "y"},
+         "renames": ["a", "b", "c", "d", "e"], "text": """package main
+
+import "fmt"
+
+var {a} = 10
+
+func f({b} int) int {
+	s := {b} + 1
+	if s > 0 {
+		{c} := 4
+		s = s + {c}
+	}
+	return s + {b}
+}
+
+func g() int {
+	t := {a} + 2
+	for {d} := 0; {d} < 2; {d}++ {
+		t = t + {d}
+	}
+	return t
+}
+
+func h(n int) int {
+	{e} := n * 3
+	if n > 0 {
+		{e} = {e} + 1
+	}
+	return {e}
+}
+
+func main() {
+	fmt.Println(f(3))
+	fmt.Println(g())
+	fmt.Println(h(2))
+}
+"""},
+        {"name": "closure", "file": "main.go", "vars": {"a": "v", "b": "v", "c": "w"},
+         "renames": ["a", "b", "c"], "text": """package main
+
+import "fmt"
+
+func outer({a} int) func(int) int {
+	{c} := {a} + 1
+	return func({b} int) int {
+		return {b} + {c}
+	}
+}
+
+func main() {
+	fn := outer(2)
+	fmt.Println(fn(5))
+}
+"""},
+    ],
+    "php": [
+        {"name": "shadow", "file": "main.php", "sigil": "$", "vars": {"a": "x", "b": "x", "c": "x", "e": "y"},
+         "renames": ["a", "b", "c", "e"], "text": """<?php
+${a} = 10;
+function f(${b}) {
+    $s = ${b} + 1;
+    $g = function (${c}) use ($s) {
+        return ${c} + $s;
+    };
+    return $g(4) + ${b};
+}
+function g() {
+    global ${a};
+    $t = ${a} + 2;
+    return $t;
+}
+function h($n) {
+    ${e} = $n * 3;
+    if ($n > 0) {
+        ${e} = ${e} + 1;
+    }
+    return ${e};
+}
+echo f(3), "\\n";
+echo g(), "\\n";
+echo h(2), "\\n";
+"""},
+    ],
+    "typescript": [
+        {"name": "shadow", "file": "main.ts", "vars": {"a": "x", "b": "x", "c": "x", "d": "i", "e": "y"},
+         "renames": ["a", "b", "c", "d", "e"], "text": """let {a}: number = 10;
+function f({b}: number): number {
+  let s: number = {b} + 1;
+  if (s > 0) {
+    let {c}: number = 4;
+    s = s + {c};
+  }
+  return s + {b};
+}
+function g(): number {
+  let t: number = {a} + 2;
+  for (let {d}: number = 0; {d} < 2; {d}++) {
+    t = t + {d};
+  }
+  return t;
+}
+function h(n: number): number {
+  let {e}: number = n * 3;
+  if (n > 0) {
+    {e} = {e} + 1;
+  }
+  return {e};
+}
+console.log(f(3));
+console.log(g());
+console.log(h(2));
+"""},
+        {"name": "closure", "file": "main.ts", "vars": {"a": "v", "b": "v", "c": "w"},
+         "renames": ["a", "b", "c"], "text": """function outer({a}: number): (p: number) => number {
+  const {c}: number = {a} + 1;
+  return function ({b}: number): number {
+    return {b} + {c};
+  };
+}
+const fn = outer(2);
+console.log(fn(5));
+"""},
+    ],
+}
+
+
+def render_template(t, rename=None):
+    """-> (text, {placeholder: [0-based lines]})"""
+    names = dict(t["vars"])
+    if rename:
+        names[rename] = names[rename] + "_r"
+    lines = {}
+    out = []
+    for i, line in enumerate(t["text"].split("\n")):
+        for k in t["vars"]:
+            if "{" + k + "}" in line:
+                lines.setdefault(k, []).append(i)
+                line = line.replace("{" + k + "}", names[k])
+        out.append(line)
+    return "\n".join(out), lines
+
+
+def run_template(lang, t, text, workdir):
+    """Run one rendered variant with the language's own toolchain when there is one. -> output text, or None (no toolchain)."""
+    import os
+    import re
+    import shutil
+    import subprocess
+    os.makedirs(workdir, exist_ok=True)
+    try:
+        if lang == "java" and shutil.which("javac"):
+            with open(os.path.join(workdir, "Main.java"), "w") as f:
+                f.write(text)
+            subprocess.run(["javac", "-d", workdir, os.path.join(workdir, "Main.java")], capture_output=True, timeout=120, check=True)
+            return subprocess.run(["java", "-cp", workdir, "Main"], capture_output=True, text=True, timeout=60, check=True).stdout
+        if lang == "c" and shutil.which("gcc"):
+            src = os.path.join(workdir, "main.c")
+            with open(src, "w") as f:
+                f.write(text)
+            exe = os.path.join(workdir, "a.out")
+            subprocess.run(["gcc", "-Wshadow", "-o", exe, src], capture_output=True, timeout=120, check=True)
+            return subprocess.run([exe], capture_output=True, text=True, timeout=30, check=True).stdout
+        if lang == "typescript" and shutil.which("node"):
+            js = re.sub(r"\)\s*:\s*\(p: number\) => number", ")", text)
+            js = re.sub(r":\s*number", "", js)
+            src = os.path.join(workdir, "main.js")
+            with open(src, "w") as f:
+                f.write(js)
+            return subprocess.run(["node", src], capture_output=True, text=True, timeout=30, check=True).stdout
+    except Exception as e:
+        return "!toolchain-error:" + repr(e)[:200]
+    return None
